@@ -15,6 +15,11 @@ package codecparams
 //@   props C09 C16
 //@   requires anylock()
 //@   ensures result == "" || hasprefix(result, "av01.") || hasprefix(result, "vp09.") || hasprefix(result, "hvc1.") || hasprefix(result, "avc1.") || hasprefix(result, "mp4a.40.") || result == "opus"
+//@   emits [C16] "av01." sh.SeqProfile, sh.SeqLevelIdx[], sh.SeqTier[], sh.ColorConfig.BitDepth, sh.ColorConfig.MonoChrome, sh.ColorConfig.SubsamplingX, sh.ColorConfig.SubsamplingY, sh.ColorConfig.ChromaSamplePosition, sh.ColorConfig.ColorPrimaries, sh.ColorConfig.TransferCharacteristics, sh.ColorConfig.MatrixCoefficients, sh.ColorConfig.ColorRange
+//@   emits [C16] "vp09." codec.Profile, codec.BitDepth
+//@   emits [C16] "hvc1." sps.ProfileTierLevel.GeneralProfileSpace?, sps.ProfileTierLevel.GeneralProfileIdc, sps.ProfileTierLevel.GeneralProfileCompatibilityFlag, sps.ProfileTierLevel.GeneralTierFlag, sps.ProfileTierLevel.GeneralLevelIdc, *
+//@   emits [C16] "avc1." codec.SPS[:]
+//@   emits [C16] "mp4a.40." codec.Config.Type
 //@   ensures [C16] result in /(av01\.{N}\.{Z}[MH]\.{Z}\.[01]\.[01][01]{N}\.({Z}\.{Z}\.{Z}\.[01]|01\.01\.01\.0)|vp09\.{Z}\.10\.{Z}|hvc1\.(.|\n)*|avc1\.(.|\n)*|opus|mp4a\.40\.{N})?/
 //@ end
 
